@@ -318,6 +318,59 @@ def aggregator_rows(run):
                 return
 
 
+def partial_consumption_rows(run):
+    """Per-element lambdas of the lazily evaluated library functions run once per element CONSUMED: a consumer that
+    stops early (first, take, any/all, a binding that is never read) leaves the rest unevaluated - for the regex
+    functions with selectors as well; a secondary sort key is consulted only for elements whose earlier keys tie."""
+    rows = [("regex('[0-9]').searchAll('a1b2c3', tick(1, $)).first()", [1]),
+            ("regex('[0-9]').searchAll('a1b2c3', tick(1, $)).take(2).toList()", [1, 1]),
+            ("let(x => regex('[0-9]').searchAll('a1b2c3', tick(1, $))) -> 1", []),
+            ("[regex('[0-9]').searchAll('a1b2', tick(1, $)).first(), tick(2, 0)].len()", [1, 2]),
+            ("regex('[0-9]').searchAll('a1b2c3', tick(1, $)).toList().len()", [1, 1, 1]),
+            ("[[1], [2], [3]].selectMany(tick(1, $)).first()", [1]),
+            ("[1, 2, 3].takeWhile(tick(1, $ < 2)).toList()", [1, 1]),
+            ("[1, 2, 3].skipWhile(tick(1, $ < 2)).first()", [1, 1]),
+            ("[1, 2, 3].accumulate(tick(1, $1 + $2)).take(2).toList()", [1]),
+            ("[1, 2, 3].zip([4, 5, 6]).select(tick(1, $)).first()", [1]),
+            ("[1, 2, 3].distinct(tick(1, $)).first()", [1]),
+            ("[1, 2, 3].select(tick(1, $)).skip(1).first()", [1, 1]),
+            ("[1, 2, 3].select(tick(1, $)).last()", [1, 1, 1]),
+            ("[1, 2, 3].sliceWhere(tick(1, $ > 1)).first()", [1, 1]),
+            ("[1, 2, 3].splitWhere(tick(1, $ > 1)).first()", [1, 1]),
+            ("[1, 2, 3].lastIndexWhere(tick(1, $ > 1))", [1, 1, 1]),
+            ("[1, 2, 3].all(tick(1, $ > 1))", [1]),
+            ("[1, 2, 3].any(tick(1, $ > 1))", [1, 1]),
+            ("[1, 2, 3].defaultIfEmpty(tick(1, [9])).first()", [1]),
+            ("let(x => [1, 2, 3].select(tick(1, $))) -> 2", []),
+            ("[[1, 2, 3].select(tick(1, $)), 5][1]", [])]
+    for text, want in rows:
+        log, r = ec.run_real(text, None)
+        run.case(("partial", text), nontrivial=True)
+        run.count("partial_consumption_row")
+        if r[0] == "err" or log != want:
+            run.fail("violation", "a per-element lambda ran for elements that were never consumed (or not once per consumed element)",
+                     {"program": text, "observed_log": log, "required_log": want, "observed": repr(r)[:200], "required": "partial row"})
+            return
+    # sort keys: which key selectors run is the sort algorithm's business, but a LATER key is consulted only on a tie
+    count_rows = [("[3, 1, 2].orderBy(tick(1, $)).thenBy(tick(2, $)).toList()", {2: "zero"}),
+                  ("[5, 3, 1, 2, 4].orderBy(tick(1, $)).thenByDescending(tick(2, $)).toList()", {2: "zero"}),
+                  ("[3, 1, 2].orderByDescending(tick(1, $)).thenBy(tick(2, $)).thenBy(tick(3, $)).toList()", {2: "zero", 3: "zero"}),
+                  ("[1, 1, 1].orderBy(tick(1, $)).thenBy(tick(2, $)).toList()", {2: "some"}),
+                  ("[[1, 2], [1, 1], [2, 0]].orderBy(tick(1, $[0])).thenBy(tick(2, $[1])).thenBy(tick(3, $[1])).toList()", {2: "some", 3: "zero"}),
+                  ("[3, 1, 2].orderBy(tick(1, $)).thenBy(tick(2, $)).first()", {2: "zero"}),
+                  ("let(x => [3, 1, 2].orderBy(tick(1, $)).thenBy(tick(2, $))) -> 1", {1: "zero", 2: "zero"})]
+    for text, counts in count_rows:
+        log, r = ec.run_real(text, None)
+        run.case(("sortkeys", text), nontrivial=True)
+        run.count("sort_key_row")
+        bad = r[0] == "err" or any((log.count(k) != 0) if v == "zero" else (log.count(k) == 0) for k, v in counts.items())
+        if bad:
+            run.fail("violation", "a later sort key was evaluated for elements whose earlier keys do not tie (or a key of a sort "
+                                  "that is never consumed was evaluated)",
+                     {"program": text, "observed_log": log, "required_log": "counts %r" % counts, "observed": repr(r)[:200], "required": "partial row"})
+            return
+
+
 CORPUS = ["1", "2", "0", "'ab'", "'a'", "[1, 2]", "[3]", "{a => 1}", "true", "null", "[[1, 2], [3]]"]
 
 
@@ -430,6 +483,7 @@ def oracle(run, deep):
     repeated_calls(run)
     legacy_tables(run)
     aggregator_rows(run)
+    partial_consumption_rows(run)
     registry_sweep(run, deep)
 
 
@@ -450,7 +504,7 @@ def replay(run, data):
     d = data.get("data", {})
     if "required" in d and "required_log" in d:
         probe = _Probe()
-        {"legacy row": legacy_tables, "aggregator row": aggregator_rows}.get(d["required"], repeated_calls)(probe)
+        {"legacy row": legacy_tables, "aggregator row": aggregator_rows, "partial row": partial_consumption_rows}.get(d["required"], repeated_calls)(probe)
         return not probe.failed
     if "required_log" in d:
         log, r = ec.run_real(d["program"], d.get("data"))
